@@ -168,11 +168,11 @@ def error_model_units():
 
 
 def all_units():
-    return u_is_valid_solution() + [u_check_flow_conservation()] + _unit("flowpaths/kflowdecomp.py", "kFlowDecomp", "paths", "get_solution_paths") + \
+    return u_is_valid_solution() + u_is_valid_solution("flowpaths/kflowdecompcycles.py", "kFlowDecompCycles", "walks", ("weight_from_walks", "num_edge_walks_on_edges"), True) + [u_check_flow_conservation()] + _unit("flowpaths/kflowdecomp.py", "kFlowDecomp", "paths", "get_solution_paths") + \
         _unit("flowpaths/kflowdecompcycles.py", "kFlowDecompCycles", "walks", "get_solution_walks")
 
 
-def u_is_valid_solution(relpath="flowpaths/kflowdecomp.py", cls="kFlowDecomp", route_key="paths"):
+def u_is_valid_solution(relpath="flowpaths/kflowdecomp.py", cls="kFlowDecomp", route_key="paths", names=("flow_from_paths", "num_paths_on_edges"), floor1=False):
     """kFlowDecomp.is_valid_solution on a cached solution of TWO routes of arbitrary length (the loops over the routes run natively, the loops over a route's edges and
     over the graph's edges are cut): it answers True exactly when every non-ignored edge that carries a value differs from the summed weights of the routes through it
     by at most tolerance x (number of traversals) - the tolerance form of C02's "explains every non-ignored edge's flow".  ValueError exactly when no solution is cached."""
@@ -185,6 +185,7 @@ def u_is_valid_solution(relpath="flowpaths/kflowdecomp.py", cls="kFlowDecomp", r
     EU, EV, FL = z3.Function("edge_tail", INT, INT), z3.Function("edge_head", INT, INT), z3.Function("edge_value", INT, REAL)
     HASF, IGN, ISE = z3.Function("edge_has_a_value", INT, BOOL), z3.Function("edge_is_ignored", INT, INT, BOOL), z3.Function("is_edge", INT, INT, BOOL)
     TOL = z3.RealVal("1/1000")
+    NF, NN = names
 
     class PairMap:
         def __init__(self, fn, dom): self.fn, self.dom = fn, dom
@@ -219,20 +220,23 @@ def u_is_valid_solution(relpath="flowpaths/kflowdecomp.py", cls="kFlowDecomp", r
     def counted(j): return z3.And(HASF(j), z3.Not(IGN(EU(j), EV(j))))
     def within(j):
         d = tot(EU(j), EV(j)) - FL(j)
-        return z3.And(d <= TOL * z3.ToReal(cnt(EU(j), EV(j))), -d <= TOL * z3.ToReal(cnt(EU(j), EV(j))))
+        n = cnt(EU(j), EV(j))
+        if floor1:                                          # the walk model allows the tolerance once even on an edge no walk traverses
+            n = z3.If(n >= 1, n, z3.IntVal(1))
+        return z3.And(d <= TOL * z3.ToReal(n), -d <= TOL * z3.ToReal(n))
 
     def enter_route(ns, it=None):
-        if not isinstance(ns.get("flow_from_paths"), PairMap):
+        if not isinstance(ns.get(NF), PairMap):
             return                                   # concrete instance: the dicts are real dicts
         st["r"] = st["route_no"]
         st["route_no"] += 1
-        st["f0"], st["n0"] = ns["flow_from_paths"].fn, ns["num_paths_on_edges"].fn
+        st["f0"], st["n0"] = ns[NF].fn, ns[NN].fn
 
     def inv_route(ns, seq, done):
         r, d = st["r"], lift(done)
         a, b = z3.Ints("ra rb")
         return {"after-the-first-edges-of-the-route:-flow_from_paths-grew-by-the-route's-weight-per-traversal,-num_paths_on_edges-by-one-per-traversal":
-                z3.ForAll([a, b], z3.And(ns["flow_from_paths"].fn(a, b) == st["f0"](a, b) + TH(r, a, b, d), ns["num_paths_on_edges"].fn(a, b) == st["n0"](a, b) + CN(r, a, b, d)))}
+                z3.ForAll([a, b], z3.And(ns[NF].fn(a, b) == st["f0"](a, b) + TH(r, a, b, d), ns[NN].fn(a, b) == st["n0"](a, b) + CN(r, a, b, d)))}
 
     def inv_edges(ns, seq, done):
         j = z3.Int("ej")
@@ -285,9 +289,24 @@ def u_is_valid_solution(relpath="flowpaths/kflowdecomp.py", cls="kFlowDecomp", r
         if res is True:
             c.prove("post:True-only-if-every-counted-edge-is-explained-within-tolerance-x-traversals", allok, prop=P)
         elif res is False:
-            c.prove("post:False-only-if-some-counted-edge-is-not-explained-within-tolerance-x-traversals", z3.Not(allok), prop=P)
+            c.prove("post:False-only-if-some-counted-edge-is-not-explained-within-tolerance-x-traversals", z3.Not(allok), prop=None)     # auxiliary: a stricter validator does not break C02
         else:
             c.prove("post:the-answer-is-a-bool", False, prop=P)
+
+    class Fetched(Exception):
+        pass
+
+    def h_fetch(c, f):                                      # walk model: nothing cached -> the solution is fetched first (get_solution raises when there is none), never an answer without one
+        class Me(Tracked):
+            def get_solution(self):
+                raise Fetched()
+        me = Me()
+        me._solution = None
+        try:
+            f(me)
+            c.prove("xpost:nothing-cached:-get_solution-is-asked-before-any-answer", False, prop=P, kind="xpost")
+        except Fetched:
+            c.prove("xpost:nothing-cached:-get_solution-is-asked-before-any-answer", True, prop=P, kind="xpost")
 
     def h_none(c, f):
         class Me(Tracked):
@@ -310,6 +329,11 @@ def u_is_valid_solution(relpath="flowpaths/kflowdecomp.py", cls="kFlowDecomp", r
         ([("s", "a", 5), ("a", "b", 3), ("a", "c", 2), ("b", "t", 3), ("c", "t", 2)], [["s", "a", "b", "t"], ["s", "a", "c", "t"]], [3.0005, 2.0], [], True),
         ([("s", "a", 5), ("a", "b", 3), ("a", "c", 2), ("b", "t", 3), ("c", "t", 2)], [["s", "a", "b", "t"], ["s", "a", "c", "t"]], [3.0025, 2.0], [], False),
         ([("s", "a", 4), ("a", "t", 4)], [["s", "a", "t"], ["s", "a", "t"]], [1, 3], [], True),
+        ([("s", "a", 3), ("a", "t", 3)], [["s", "a", "t"], ["s", "a", "t"]], [3, 3], [], False),             # twice the flow: each route alone would explain it
+        ([("s", "a", 5), ("a", "b", 3), ("a", "c", 2), ("b", "t", 3), ("c", "t", 2)], [["s", "a", "b", "t"], ["s", "a", "c", "t"]], [3.0015, 2.0], [], False),   # a->b off by 0.0015 > 1 x 0.001
+        ([("s", "a", 1), ("a", "b", 2), ("b", "a", 1), ("b", "t", 1)], [["s", "a", "b", "a", "b", "t"]], [1], [], True),       # an edge traversed twice by one route
+        ([("s", "a", 1), ("a", "b", 2), ("b", "a", 1), ("b", "t", 1)], [["s", "a", "b", "a", "b", "t"]], [1.00075], [], True),  # a->b: off by 0.0015 <= 2 x 0.001 (tolerance per traversal)
+        ([("s", "a", 2), ("a", "t", 2), ("s", "t", 0.0005)], [["s", "a", "t"]], [2], [], floor1),           # an edge no route traverses: tolerance x max(1, 0) in the walk model only
     ]
 
     def instances():
@@ -327,14 +351,14 @@ def u_is_valid_solution(relpath="flowpaths/kflowdecomp.py", cls="kFlowDecomp", r
                 me._solution = {route_key: [list(r) for r in routes], "weights": list(ws)}
                 me.G, me.flow_attr, me.edges_to_ignore = g, "flow", set(ign)
                 got = f(me)
-                c.prove("instance:the-answer-is-%s" % want, z3.BoolVal(got is want), prop=P, info=dict(got=str(got)))
+                c.prove("instance:the-answer-is-%s" % want, z3.BoolVal(got is want), prop=(None if want else P), info=dict(got=str(got)))   # accepting an unexplained edge is the property; refusing an explained one is auxiliary
             out.append(("edges %s routes %s weights %s ignored %s" % (E, routes, ws, ign), hc))
         return out
 
-    fmr = lambda old: PairMap.fresh("flow_from_paths", True)
-    fmi = lambda old: PairMap.fresh("num_paths_on_edges", False)
+    fmr = lambda old: PairMap.fresh(NF, True)
+    fmi = lambda old: PairMap.fresh(NN, False)
     # loops in source order: 0 = over (weight, route) [native: concrete zip], 1 = over the edges of a route [cut], 2 = over the graph's edges [cut]
-    loops = {1: dict(inv=inv_route, prop=P, on_entry=enter_route, havoc={"flow_from_paths": fmr, "num_paths_on_edges": fmi}),
+    loops = {1: dict(inv=inv_route, prop=P, on_entry=enter_route, havoc={NF: fmr, NN: fmi}),
              2: dict(inv=inv_edges, prop=P, keep=("u", "v", "data"))}
     g = dict(utils=UtilsStub)
     return [Unit(relpath, cls + ".is_valid_solution", h, globs=g, loops=loops, props=[P], literals=dict(dictcomp=dictcomp), instances=instances,
@@ -342,4 +366,4 @@ def u_is_valid_solution(relpath="flowpaths/kflowdecomp.py", cls="kFlowDecomp", r
                  assumptions=["requires: the cached routes are routes of the graph (consecutive nodes are edges); default tolerance 0.001",
                               "two routes of arbitrary length (the number of routes is fixed in this contract; the loops over a route and over the graph's edges are unbounded)"],
                  abstractions=["the two dicts are functions on the edges of the graph; the weight / number of traversals through an edge are ghost prefix sums along each route"]),
-            Unit(relpath, cls + ".is_valid_solution", h_none, globs=g, props=[P], name="%s:%s.is_valid_solution[no solution]" % (relpath, cls))]
+            Unit(relpath, cls + ".is_valid_solution", h_fetch if floor1 else h_none, globs=g, props=[P], name="%s:%s.is_valid_solution[no solution]" % (relpath, cls))]
